@@ -5,6 +5,9 @@ VERIF = os.path.dirname(os.path.dirname(os.path.abspath(__file__)))
 NOTES = {
     "C08-m2": "outside C08's quantifier: needs several client threads calling start() concurrently; the property speaks of submissions made by the owning thread",
     "C11-m2": "a data race (lock released before the critical work): reported by C15; invisible to C11 by construction (DESIGN.md section 5, C11 S)",
+    "C02-m6": "needs 65536 tickets in one busy period: quick tier misses it by design; caught by C02 --tier thorough (long-busy-period shape, 66000 requests)",
+    "C11-m6": "outside C11's quantifier: needs a second router and a callback that notifies it (C11 speaks of one router whose callbacks do not call back into the router)",
+    "C14-m6": "the change is in File.cpp (text-mode read beyond 8 KiB), reached through C14's anchor list only nominally; caught by C17 (quick)",
     "C20-m3": "judged equivalent w.r.t. the literal property: isFinished() still becomes true only after run() returned and join() still returns after the Runnable was destroyed; "
               "only the order 'flag, then delete' vs 'delete, then flag' changes, which the property does not fix",
     "C20-m4": "a memory-ordering defect (relaxed store): invisible to the sequentially consistent scheduler of C20; reported by C15's Thread completion-flag family (ThreadSanitizer)",
@@ -24,6 +27,7 @@ for sid in ids:
     caught = m.get("caught_by")
     if caught is None:
         continue
+    caught = caught + [x + " (thorough)" for x in m.get("caught_by_thorough", [])] + m.get("caught_by_other_group", [])
     n += 1; c += bool(caught)
     cls = "; ".join("%s: %s" % (k, ", ".join(v)) for k, v in m.get("failure_classes", {}).items())
     needs = str(m.get("needs", "")).replace("|", "/").replace("\n", " ")[:260]
